@@ -279,6 +279,28 @@ def run(ctx):
     ctx.check(imp.get("original_h1") == ("physt._facade", "h1") and imp.get("original_hdd") == ("physt._facade", "histogramdd"), "C17.f", "dask:facades",
               "original_h1 / original_hdd are the plain facades", "the dask module no longer wraps physt's own facades", dm.relpath)
 
+    # plain arrays given to the dask facades are wrapped with a positive chunk size; 2-D / 3-D aliases reach histogramdd
+    NONCALL = {"size", "shape", "ndim", "dtype", "T", "nbytes", "itemsize", "real", "imag", "flat"}
+    bad_calls = [f"{fi.qualname}: `{U(c)[:50]}`" for fi in dm.functions.values() for c in calls_in(fi.node)
+                 if isinstance(c.func, ast.Attribute) and c.func.attr in NONCALL and not c.args and not c.keywords]
+    ctx.check(not bad_calls, "C17.f", "dask:array-attributes-not-called", "no ndarray attribute (size, shape, ndim, ...) is called like a method",
+              f"{bad_calls[:2]} - `.size` etc. are attributes of ndarray / dask arrays: the call raises TypeError for every input", dm.relpath)
+    fa = [(fi, c) for fi in dm.functions.values() for c in calls_in(fi.node) if U(c.func).endswith("from_array")]
+    for fi, c in fa:
+        ch = kwarg(c, "chunks")
+        first = ch.elts[0] if isinstance(ch, ast.Tuple) and ch.elts else ch
+        okc = first is not None and (isinstance(first, ast.Call) and U(first.func) == "max" and any(const_value(a) == 1 for a in first.args)
+                                     or isinstance(first, ast.Constant) and isinstance(first.value, int) and first.value >= 1
+                                     or isinstance(first, ast.Constant) and first.value in ("auto",))
+        ctx.check(bool(okc), "C17.f", f"dask.{fi.name}:chunks-positive:{U(c.args[0]) if c.args else ''}", "row chunk size = max(1, ...)",
+                  f"`{U(c)[:80]}`: the row chunk size can be 0 (few values) or is not an integer - dask refuses what the plain facade histograms", fi.where)
+    ctx.check(len(fa) >= 4, "C17.f", "dask:from_array-sites", f"{len(fa)} wrapping sites", f"only {len(fa)} from_array sites found", dm.relpath)
+    h2d, h3d = dm.functions.get("histogram2d"), dm.functions.get("h3")
+    ok2 = h2d is not None and "data = dask.array.stack([data1, data2], axis=1)" in U(h2d.node) and "return histogramdd(data, bins, **kwargs)" in U(h2d.node)
+    ok3 = h3d is not None and "return histogramdd(data, bins, **kwargs)" in U(h3d.node)
+    ctx.check(ok2 and ok3, "C17.f", "dask:h2-h3", "histogram2d stacks (data1, data2) as columns; both delegate to histogramdd with bins and kwargs",
+              "the dask 2-D / 3-D facades no longer delegate to histogramdd with the columns in order", (h2d or dm).where if h2d else dm.relpath)
+
     # ---- C17.g names carried by the container ---------------------------------------------------------------------------
     ctx.rule("C17.g", "axis names carried by the inputs reach the histogram whenever the caller gave none", 4)
     fac = m.module("_facade")
